@@ -197,6 +197,10 @@ type c07Failing struct {
 
 func (c07Failing) Fail() (string, error) { return "", errSentinel }
 
+func c07Binds() map[string]any {
+	return map[string]any{"a": 1, "me": c07Failing{F: func() (string, error) { return "", errSentinel }}}
+}
+
 var c07Locate = hx.Define("c07.locate", func(c *c07Case, s *hx.Sub) *hx.Violation {
 	src, failAt, ok := c.build()
 	if !ok {
@@ -240,7 +244,7 @@ var c07Locate = hx.Define("c07.locate", func(c *c07Case, s *hx.Sub) *hx.Violatio
 			tpl, perr = eng.ParseTemplateLocation([]byte(src), c.Path, c.Start)
 		}
 		if perr == nil {
-			out, rerr = tpl.Render(map[string]any{"a": 1, "me": c07Failing{F: func() (string, error) { return "", errSentinel }}})
+			out, rerr = tpl.Render(c07Binds())
 		}
 	}); pi != nil {
 		return hx.V("panic@"+pi.Site, "%q: %v", src, pi)
@@ -258,6 +262,23 @@ var c07Locate = hx.Define("c07.locate", func(c *c07Case, s *hx.Sub) *hx.Violatio
 	}
 	if rerr != nil && len(out) != 0 {
 		return hx.V("c07:output-with-error", "%s returned output %q together with the error %v", desc, out, rerr)
+	}
+	if rerr != nil {
+		// "Render/RenderString never return output together with an error": the string entry points too
+		var outS, outE string
+		var errS, errE liquid.SourceError
+		if pi := hx.Guard(func() {
+			outS, errS = tpl.RenderString(c07Binds())
+			outE, errE = eng.ParseAndRenderString(src, c07Binds())
+		}); pi != nil {
+			return hx.V("panic@"+pi.Site, "%q: %v", src, pi)
+		}
+		if errS == nil || outS != "" {
+			return hx.V("c07:output-with-error", "%s: RenderString returned output %q together with the error %v", desc, outS, errS)
+		}
+		if c.Path == "" && c.Start <= 1 && !c.Cache && (errE == nil || outE != "") {
+			return hx.V("c07:output-with-error", "%s: ParseAndRenderString returned output %q together with the error %v", desc, outE, errE)
+		}
 	}
 	wantLine := c.Start + strings.Count(src[:failAt], "\n")
 	if k.altLine != "" {
